@@ -267,6 +267,15 @@ pub fn run(tier: &str) -> i32 {
                                 None => v = Some(("replica-roots".to_string(), format!("replica files encode length {} but not all of its roots", ds.length))),
                             }
                         }
+                        // nodes once persisted (tree file or pending oplog entries) stay persisted:
+                        // these histories never truncate the tree
+                        if v.is_none() && cx.op().is_replica_op() {
+                            if let Ok(before) = format::read_storage(cx.img_before) {
+                                if let Some(lost) = before.nodes.keys().find(|k| !ds.nodes.contains_key(k)) {
+                                    v = Some(("replica-node-lost".to_string(), format!("tree node {lost}, persisted before the call, is no longer in the replica's files")));
+                                }
+                            }
+                        }
                         v
                     }
                 };
